@@ -25,7 +25,7 @@ def sig_queries():
     for j in range(3):
         qs.append(mk(f'sig_checksigadd_depth{j}', 'op==0xba', j, max(j, 1), 16, ['H_EXEC=1', 'H_BASE0', 'H_NO_OK', 'H_CANARY_ERR', 'H_SV=3']))
     # CHECKMULTISIG(VERIFY): case split over the number of keys / signatures (window = nk + ns + 3 items)
-    for (nk, ns, tier) in ((0, 0, 'quick'), (1, 0, 'quick'), (1, 1, 'quick'), (2, 1, 'thorough'), (2, 2, 'thorough'), (3, 2, 'thorough'), (3, 1, 'thorough'), (3, 3, 'thorough')):
+    for (nk, ns, tier) in ((0, 0, 'quick'), (1, 0, 'quick'), (1, 1, 'thorough'), (2, 1, 'thorough'), (2, 2, 'thorough'), (3, 2, 'thorough'), (3, 1, 'thorough'), (3, 3, 'thorough')):
         n = nk + ns + 3
         for op, nm in ((0xae, 'multisig'), (0xaf, 'multisigverify')):
             if nm == 'multisigverify' and (nk, ns) not in ((1, 0), (2, 1)): continue
@@ -41,7 +41,7 @@ from props import units_leaf as ULF
 def fad(n, tier):
     return Query(f'leaf_findanddelete_n{n}', 'harness', ULF.unit_decode, 'h_findanddelete', defines=['VERIF_ITEM_CAP=16', f'VERIF_SCRIPT_CAP={n}', f'H_SCRIPT_N={n}'], unwind=n + 4, timeout=3000, object_bits=10, tier=tier, backend='kissat',
                  functions=['script/interpreter.cpp: FindAndDelete'], bounded=f'all scripts of at most {n} bytes and patterns of at most 3 bytes (loop over operations: no invariant proof)')
-QUERIES = sig_queries() + [fad(5, 'quick'), fad(7, 'thorough')]
+QUERIES = sig_queries() + [fad(4, 'quick'), fad(5, 'thorough'), fad(7, 'thorough')]
 META = {'level': 'proof', 'trusted_base': TRUSTED + ['stubs/step_env_sig.h: ECDSA / Schnorr verification, low-S test and FindAndDelete as oracles'],
  'assumptions': ASSUME_COMMON + [
    "claimed: the script-level half - which signature/key pairs are submitted for verification, in which order, under which encoding rules and flags, what is charged, and what is pushed for each oracle verdict",
